@@ -13,7 +13,7 @@ from hyverif.oracles import transforms_ref as tr
 
 ID = "C02"
 SHARDS = {"quick": 16, "thorough": 16}
-BUDGET = {"quick": 60, "thorough": 600}
+BUDGET = {"quick": 300, "thorough": 1800}
 RULE = ("parameter vectors as in C01 (incl. exact branch values and constructor "
         "options); stencil points inside one smooth branch (distance to the nearest "
         "singularity / branch switch from the reference, step h = 2^k ~ d/1024 so "
